@@ -23,6 +23,9 @@ def parse_split_specification(split_spec, size):
     parts = []
     rest_index = None  # remember where the 'rest' part is
     for i, part_spec in enumerate(split_spec.split('_')):
+        if part_spec.startswith("-"):
+            raise ValueError("negative part size in specification '%s'"
+                             % split_spec)
         if part_spec[-1] == "%":
             parts.append((int(part_spec[:-1]) * size) // 100)
         elif part_spec[-1] == "#":
